@@ -122,14 +122,22 @@ def r3_request_loads(run):
     sc = cfg.call_nodes("signature_check")
     run.require(len(sc) == 1, "_loads: signature_check call vanished")
     nd, c = sc[0]
+    org3 = Origins(cfg)
     for kw in ("must", "only_valid_cert", "origdoc"):
         a = arg_of(c, None, kw)
-        run.check(a is not None and unparse(a) == kw, "R3",
-                  fi.qual + "::signature_check." + kw, "forwarded unchanged",
-                  "%s=%s" % (kw, unparse(a)), fi.loc(c), nontrivial=False)
-    run.check(unparse(arg_of(c, 0)) == "xmldata", "R3",
+        got = org3.of(a, nd.id) if a is not None else set()
+        run.check(a is not None and {(x.kind, x.text) for x in got} ==
+                  {("param", kw)}, "R3",
+                  fi.qual + "::signature_check." + kw,
+                  "the caller's %s reaches the signature check unchanged on "
+                  "every path" % kw,
+                  "%s handed to the signature check may be %s" % (
+                      kw, sorted(repr(x) for x in got)), fi.loc(c))
+    got = org3.of(arg_of(c, 0), nd.id)
+    run.check({(x.kind, x.text) for x in got} == {("param", "xmldata")}, "R3",
               fi.qual + "::signature_check.text", "checks the received text",
-              "checks %s" % unparse(arg_of(c, 0)), fi.loc(c), nontrivial=False)
+              "checks %s" % sorted(repr(x) for x in got), fi.loc(c),
+              nontrivial=False)
     st = nd.ast
     run.check(isinstance(st, ast.Assign) and
               attr_chain(st.targets[0]) == "self.message", "R3",
